@@ -694,11 +694,84 @@ func (f lenField) put(b []byte, v int) {
 	switch {
 	case f.width == 1:
 		b[f.off] = byte(v)
+	case f.width == 3:
+		b[f.off], b[f.off+1], b[f.off+2] = byte(v>>16), byte(v>>8), byte(v)
+	case f.width == 4 && f.le:
+		binary.LittleEndian.PutUint32(b[f.off:], uint32(v))
+	case f.width == 4:
+		binary.BigEndian.PutUint32(b[f.off:], uint32(v))
 	case f.le:
 		binary.LittleEndian.PutUint16(b[f.off:], uint16(v))
 	default:
 		binary.BigEndian.PutUint16(b[f.off:], uint16(v))
 	}
+}
+
+func (f lenField) get(b []byte) int {
+	switch {
+	case f.width == 1:
+		return int(b[f.off])
+	case f.width == 3:
+		return int(b[f.off])<<16 | int(b[f.off+1])<<8 | int(b[f.off+2])
+	case f.width == 4 && f.le:
+		return int(binary.LittleEndian.Uint32(b[f.off:]))
+	case f.width == 4:
+		return int(binary.BigEndian.Uint32(b[f.off:]))
+	case f.le:
+		return int(binary.LittleEndian.Uint16(b[f.off:]))
+	}
+	return int(binary.BigEndian.Uint16(b[f.off:]))
+}
+
+// BigStretch returns variants of seed whose tail is stretched by 300 and by 66 000 bytes with every length field that
+// covers the tail increased accordingly - fields of 1, 2, 3 and 4 bytes are recognised, and a variant is made only from
+// the outermost fields that can all hold the new value. The result is a consistent message with one element larger
+// than 255 or 65 535 bytes (a 24-bit AVP or handshake length, a 32-bit block length): what a serializer that writes only
+// the low 8 or 16 bits of such a length gets wrong.
+func (c *Corpus) BigStretch(seed []byte) (out [][]byte) {
+	n := len(seed)
+	if n < 4 || n > 4096 {
+		return nil
+	}
+	var fs []lenField
+	for off := 0; off < n && len(fs) < 12; off++ {
+		for _, f := range []lenField{{off: off, width: 4}, {off: off, width: 4, le: true}, {off: off, width: 3}, {off: off, width: 2}, {off: off, width: 2, le: true}, {off: off, width: 1}} {
+			if off+f.width > n {
+				continue
+			}
+			f.v = f.get(seed)
+			if f.v == 0 || f.v > n {
+				continue
+			}
+			if rest := n - f.v; rest >= 0 && rest <= off+f.width+8 {
+				fs = append(fs, f)
+				off += f.width - 1 // the bytes of a recognised field are not fields of their own
+				break
+			}
+		}
+	}
+	for _, k := range []int{300, 66000} {
+		for j := 1; j <= len(fs); j++ {
+			ok := true
+			for _, f := range fs[:j] {
+				if f.v+k >= 1<<(8*f.width) {
+					ok = false
+				}
+			}
+			if !ok {
+				break
+			}
+			b := append(make([]byte, 0, n+k), seed...)
+			for i := 0; i < k; i++ {
+				b = append(b, seed[n-1-(i%n)]^byte(i>>3))
+			}
+			for _, f := range fs[:j] {
+				f.put(b, f.v+k)
+			}
+			out = append(out, b)
+		}
+	}
+	return
 }
 
 // tailFields finds the bytes and 16-bit words of seed whose value, counted from the start of the seed, from the field or
@@ -852,7 +925,17 @@ func handMade() map[gopacket.LayerType][][]byte {
 	initAck := []byte{2, 0, 0, 32, 0, 0, 0, 1, 0, 1, 0, 0, 0, 2, 0, 2, 0, 0, 0, 9, 0, 7, 0, 12, 1, 2, 3, 4, 5, 6, 7, 8}
 	sack := []byte{3, 0, 0, 24, 0, 0, 0, 9, 0, 1, 0, 0, 0, 1, 0, 1, 0, 2, 0, 3, 0, 0, 0, 7}
 	data := []byte{0, 3, 0, 20, 0, 0, 0, 1, 0, 1, 0, 0, 0, 0, 0, 0, 'd', 'a', 't', 'a'}
+	// radiotap headers whose Flags field switches on what no fixture uses: the driver pad behind the 802.11 header (DATAPAD)
+	// and a frame check sequence (FCS), in front of a QoS data frame and of a four-address data frame
+	llc := append([]byte{0xaa, 0xaa, 0x03, 0, 0, 0, 0x08, 0x06}, make([]byte, 28)...)
+	mac3 := []byte{0, 0x11, 0x22, 0x33, 0x44, 0x55, 0x66, 0x77, 0x88, 0x99, 0xaa, 0xbb, 0, 0x11, 0x22, 0x33, 0x44, 0x55}
+	qos := append(append(append([]byte{0x88, 0x01, 0x2c, 0}, mac3...), 0x10, 0, 0, 0, 0, 0), llc...)                                        // QoS data, 26-byte header, 2 pad bytes
+	wds := append(append(append(append([]byte{0x08, 0x03, 0x2c, 0}, mac3...), 0x10, 0), 2, 0, 0, 0, 0, 9), append([]byte{0, 0}, llc...)...) // 4 addresses, pad
+	rtap := func(flags byte, frame []byte) []byte {
+		return append([]byte{0, 0, 9, 0, 2, 0, 0, 0, flags}, frame...)
+	}
 	return map[gopacket.LayerType][][]byte{
+		layers.LayerTypeRadioTap: {rtap(0x20, qos), rtap(0x30, append(append([]byte{}, wds...), 1, 2, 3, 4))},
 		layers.LayerTypeSCTP: {sctp(hb), sctp(hbAck), sctp(sErr), sctp(abort), sctp(unk), sctp(unkSkip, data), sctp(cookieAck), sctp(shutAck), sctp(shutDone), sctp(shut),
 			sctp(cookie, data), sctp(initC), sctp(initAck), sctp(sack, data), sctp(data, sack, hb)},
 		layers.LayerTypeDot11DataCFAck:     {snap},
